@@ -154,8 +154,8 @@ theorem portWrite_mt (cx : Ctx F E) (port : NodeId) (a : Int) (data : Bytes) : M
     rename_i b chunk
     cases chunk
     · show (match s.dev.write a data with
-        | some d => ((Res.ok () : Res Err Unit), ({ s with dev := d } : S F), [Access.write a (canonWrite data) true])
-        | none => (Res.err Err.device, s, [Access.write a (canonWrite data) false])).1 ≠ _
+        | some d => ((Res.ok () : Res Err Unit), ({ s with dev := d } : S F), [Access.write a data true])
+        | none => (Res.err Err.device, s, [Access.write a data false])).1 ≠ _
       split <;> intro h <;> cases h
     · intro h; cases h
 theorem readAndCache_rt (cx : Ctx F E) (rb : RegBase) (a l : Int) (n : Nat) : RT (readAndCache cx rb a l n) := by
